@@ -80,6 +80,7 @@ type VC struct {
 	topRets      []retRec
 	safetyOff    bool
 	callsHavoc   bool
+	requiresOff  bool // callee preconditions are assumed (not obliged); callee postconditions ARE used
 	firedAnchors map[*Clause]bool
 	tablesDone   map[string]bool
 	topFn        *ssa.Function
@@ -154,7 +155,7 @@ func (vc *VC) oblige(st *State, kind, name, desc string, pos token.Position, goa
 	if n := vc.nameCount[name]; n > 1 {
 		name = fmt.Sprintf("%s#%d", name, n)
 	}
-	if (vc.safetyOff && kind == "nopanic") || (vc.callsHavoc && kind == "requires") {
+	if (vc.safetyOff && kind == "nopanic") || ((vc.callsHavoc || vc.requiresOff) && kind == "requires") {
 		// functions under a `safety_off` contract are checked for their contract clauses only
 		if kind == "nopanic" && goal != "false" {
 			vc.assume(st, goal)
